@@ -52,6 +52,7 @@ class Sim:
         self.inst = {}      # index -> {uid: Reaction instance we constructed}
         self.how = {}       # index -> {uid: ("inst", altice) | ("str", fmt)}
         self.alive = []     # keep every observed object alive (ids stay unique)
+        self.shared_lists = {}  # net index -> (uids, the list object of Reaction instances it was built from)
         self.idmaps = {i: W.identity_map(n["cfg"]) for i, n in enumerate(world["nets"])}
         self.pools = {i: {ar["uid"]: ar for ar in n["pool"]} for i, n in enumerate(world["nets"])}
         self.log = K.EventLog()
@@ -287,16 +288,27 @@ class Sim:
             init = op.get("init")
             if init and init["how"] == "reactions":
                 # Network(reactions=[...]): the constructor adds them one by one
-                objs = []
-                for u in init["uids"]:
-                    ar = self.pools[n][u]
-                    r = self.make_reaction(n, ar)
-                    self.alive.append(r)
-                    self.inst[n][u] = r
-                    self.how[n][u] = ("inst", False)
-                    self.bound[n][id(r)] = u
-                    objs.append(r)
-                    mod.add(u, W.expected_content(ar, "naunet"))
+                src = self.shared_lists.get(init.get("shared_with"))
+                if src is not None and list(src[0]) == list(init["uids"]):
+                    objs = src[1]  # the SAME list object (and Reaction objects) another network was built from
+                    for u, r in zip(init["uids"], objs):
+                        self.inst[n][u] = r
+                        self.how[n][u] = ("inst", False)
+                        self.bound[n][id(r)] = u
+                        mod.add(u, W.expected_content(self.pools[n][u], "naunet"))
+                else:
+                    objs = []
+                    for u in init["uids"]:
+                        ar = self.pools[n][u]
+                        r = self.make_reaction(n, ar)
+                        self.alive.append(r)
+                        self.inst[n][u] = r
+                        self.how[n][u] = ("inst", False)
+                        self.bound[n][id(r)] = u
+                        objs.append(r)
+                        mod.add(u, W.expected_content(ar, "naunet"))
+                    if init.get("share"):
+                        self.shared_lists[n] = (list(init["uids"]), objs)
                 kw["reactions"] = objs
             elif init and init["how"] == "files":
                 paths, fmts = [], []
@@ -526,6 +538,18 @@ def gen_world(rng, tier):
             src = allowed if allowed else alphabet
             required = rng.sample(src, min(len(src), rng.randint(1, 2)))
         nets.append({"cfg": c, "alphabet": alphabet, "pool": pool, "allowed": allowed, "required": required})
+    if len(nets) >= 2 and nets[0]["cfg"] != "ambient" and rng.random() < 0.25:
+        # a sibling: the same reactions (the very same Reaction objects and, when constructed with
+        # reactions=[...], the very same Python list) handed to two networks - `rl = [...];
+        # a = Network(rl); b = Network(rl)` - which must stay independent of each other
+        import copy
+
+        sib = copy.deepcopy(nets[0])
+        sib["sibling_of"] = 0
+        sib["allowed"] = None
+        nets[1] = sib
+        nets[0]["allowed"] = None
+        nets[0]["has_sibling"] = 1
     foreign = cfgs != ["ambient"] and rng.random() < 0.6
     weights = {k: rng.choice([0, 1, 1, 2, 4, 8]) for k in OP_KINDS}
     weights["add_inst"] = max(weights["add_inst"], 2)
@@ -561,6 +585,13 @@ def gen_op(rng, world, sim, n):
     if n not in sim.nets:
         spec = world["nets"][n]
         r = rng.random()
+        if ("sibling_of" in spec or spec.get("has_sibling") is not None) and r < 0.8:
+            other = spec.get("sibling_of", spec.get("has_sibling"))
+            if other in sim.shared_lists:
+                return {"op": "new", "net": n, "init": {"how": "reactions", "shared_with": other, "uids": list(sim.shared_lists[other][0])}}
+            k = rng.randint(2, min(8, len(spec["pool"])))
+            return {"op": "new", "net": n, "init": {"how": "reactions", "share": True,
+                                                   "uids": [ar["uid"] for ar in rng.sample(spec["pool"], k)]}}
         if r < 0.25:
             k = rng.randint(1, min(8, len(spec["pool"])))
             return {"op": "new", "net": n, "init": {"how": "reactions", "uids": [ar["uid"] for ar in rng.sample(spec["pool"], k)]}}
